@@ -1171,7 +1171,16 @@ class Definition(Macro):
         if not self.args: return self.definition
 
         name = macroName(self)
-        argIter = iter(self.args)
+        args = list(self.args)
+        # A parameter text that ends with a parameter character (`#{`)
+        # means that the last parameter is delimited by the opening brace
+        # that follows it in the input; the brace itself is not consumed.
+        bracedelim = len(args) > 0 and \
+            args[-1].catcode == Token.CC_PARAMETER and \
+            (len(args) < 2 or args[-2].catcode != Token.CC_PARAMETER)
+        if bracedelim:
+            args.pop()
+        argIter = iter(args)
         inparam = False
         params = [None]
         for a in argIter:
@@ -1241,7 +1250,16 @@ class Definition(Macro):
                     log.info('Arguments of "%s" don\'t match definition. Got "%s" but was expecting "%s" (%s).' % (name, t, a, ''.join(self.args)))
                     break
 
-        if inparam:
+        if inparam and bracedelim:
+            param = []
+            for t in tex.itertokens():
+                if t.catcode == Token.CC_BGROUP:
+                    tex.pushToken(t)
+                    break
+                param.append(t)
+            params.append(param)
+
+        elif inparam:
             params.append(tex.readArgument(parentNode=self,
                                            name='#%s' % len(params)))
 
